@@ -86,7 +86,8 @@ macro "inv_auto" h:ident hi:ident : tactic => `(tactic| (
   all_goals try (cases ‹Next›)
   all_goals (constructor <;> simp_all [running, dropped, noReadPc, b2n, userPc, Next.pc])
   all_goals try (first | omega | (split at * <;> omega))
-  all_goals try (cases hr : (‹St›).wk.reading <;> simp_all)))
+  all_goals try (cases hr : (‹St›).wk.reading <;> simp_all)
+  all_goals try (intros; grind)))
 
 section
 variable {s s' : St} {evs : List Ev}
@@ -157,5 +158,103 @@ theorem reach_inv {d : Driver} {itw : Bool} {s : St} (h : Reach d itw s) : Inv s
   induction h with
   | init => exact inv_init d itw
   | step _ hs ih => exact inv_step ih hs
+
+/-! ### the waitable set stays in sync with the executor's map -/
+
+theorem mem_ins (l : List Nat) (x y : Nat) : x ∈ ins l y ↔ x ∈ l ∨ x = y := by
+  unfold ins; split
+  · rename_i h; simp at h; constructor
+    · exact Or.inl
+    · rintro (h' | rfl); exact h'; exact h
+  · simp
+
+/-- `x` is the reader handle of the wake-up stream and its read is pending -/
+def pendingReader (s : St) (x : Nat) : Prop := s.wk.reading = true ∧ ∃ w, s.wk.stream = some (x, w)
+
+/-- `members` (what the executor has joined to its waitable set and not taken out again — the host's
+view of the set, as far as this executor changed it) = keys of the waitables map + the pending wake-up read -/
+structure InvM (s : St) : Prop where
+  sync : ∀ x, x ∈ s.members ↔ (x ∈ s.waitables ∨ pendingReader s x)
+  fresh : ∀ r w, s.wk.stream = some (r, w) → r ∉ s.waitables
+
+/-- what user code and the host never do: register / unregister the runtime's internal stream handle
+through the C ABI, or (host) return a stream handle that is already registered as a waitable -/
+def Legal (s : St) : Label → Prop
+  | .reg w _ => ∀ r wr, s.wk.stream = some (r, wr) → w ≠ r
+  | .unreg w => ∀ r wr, s.wk.stream = some (r, wr) → w ≠ r
+  | .sleepRead r _ _ _ => s.wk.stream = none → r ∉ s.waitables
+  | _ => True
+
+set_option maxHeartbeats 2000000 in
+theorem invM_step {s s' : St} {l : Label} {evs : List Ev} (hi : InvM s) (hri : s.wk.reading = true → s.wk.itw = true)
+    (hl : Legal s l) (h : step s l = .ok s' evs) : InvM s' := by
+  obtain ⟨h1, h2⟩ := hi
+  cases l <;> step_split h
+  all_goals (obtain ⟨hs, _⟩ := h; subst hs)
+  all_goals (constructor <;> simp_all [pendingReader, mem_ins, Legal])
+  all_goals try (intros; grind)
+
+/-- reachable by legal labels -/
+inductive ReachL (driver : Driver) (itw : Bool) : St → Prop
+  | init : ReachL driver itw (St.init driver itw)
+  | step {s s' : St} {l : Label} {evs : List Ev} : ReachL driver itw s → Legal s l → step s l = .ok s' evs → ReachL driver itw s'
+
+theorem ReachL.reach {d : Driver} {itw : Bool} {s : St} (h : ReachL d itw s) : Reach d itw s := by
+  induction h with
+  | init => exact .init
+  | step _ _ hs ih => exact .step ih hs
+
+theorem reachL_invM {d : Driver} {itw : Bool} {s : St} (h : ReachL d itw s) : InvM s := by
+  induction h with
+  | init => constructor <;> simp [St.init, pendingReader]
+  | step hr hl hs ih => exact invM_step ih (fun hrd => ((reach_inv hr.reach).readItw hrd).1) hl hs
+
+/-! ### legal steps never panic
+
+`Enabled s l`: label `l` is applicable in state `s` — the right program point — and respects the contracts
+of the two parties the executor talks to:
+* host: event codes ≤ EVENT_CANCEL; an event delivered to `deliver_waitable_event` names a member of the
+  task's set (`tau` at `deliver`); `waitable-set.new` never returns 0; `stream.read` on the idle wake-up
+  stream with no writer waiting answers BLOCKED; a `stream.write` that meets the pending read answers
+  COMPLETED|1<<4;
+* user code / `Tasks::poll_next`: runs only where user code can run and only through live references;
+  drops only references it holds; `poll_next` reports `Ready` iff `is_empty()` (`decide` is taken at
+  `afterPoll tasksEmpty`: `Props.C22.tasks_ready_iff_empty`); without the inter-task-wakeup feature a
+  task does not go to sleep with nothing registered and nobody wakes a sleeping task (both documented
+  panics of the runtime);
+and EXCLUDES exactly the two situations in which the current code panics on a legal schedule (known
+findings): `block_on` resuming after an answer while no waitable set exists (`call`, block driver), and a
+wake of a task in state SLEEPING whose wake-up read is not pending (`wake`: only possible after a
+cancellation while asleep, `Props.C23.wake_after_exit_full_false`). -/
+def Enabled (s : St) : Label → Prop
+  | .start => s.pc = .fresh ∧ s.driver = .start
+  | .call e w _ =>
+    s.pc = .idle ∧ e ≤ Limits.eventCancel ∧
+    (s.driver = .block → s.last ≠ none → s.set.isSome = true)
+  | .tau => (∃ w c n, s.pc = .deliver w c n ∧ w ∈ s.members) ∨ s.pc = .setPolling ∨ s.pc = .dropFields
+  | .tok _ => userPc s.pc = true
+  | .reg _ n => userPc s.pc = true ∧ s.sharedGone = false ∧ n ≠ 0
+  | .unreg _ => userPc s.pc = true ∧ s.sharedGone = false
+  | .cloneRef => userPc s.pc = true ∧ s.sharedGone = false
+  | .dropRef => userPc s.pc = true ∧ s.sharedGone = false ∧ 0 < s.clones
+  | .wake ans => userPc s.pc = true ∧ s.sharedGone = false ∧
+      (s.wk.sleep = Limits.sleepStateSleeping → s.wk.itw = true ∧ s.wk.reading = true ∧ ans = wroteOne)
+  | .cbDone => ∃ n, s.pc = .inCb n
+  | .cancelRead _ => s.pc = .cancelWake ∨ s.pc = .dropCancelWake
+  | .pollDone _ _ => s.pc = .pollTasks
+  | .decide _ _ _ => s.pc = .afterPoll s.tasksEmpty
+  | .sleepRead _ _ n ans => s.pc = .sleep ∧ (s.wk.itw = false → s.waitables ≠ []) ∧
+      (s.wk.itw = true → ans = Limits.blocked ∧ n ≠ 0)
+  | .dropTasksDone => s.pc = .dropTasks
+
+set_option maxHeartbeats 4000000 in
+theorem never_panic {s : St} {l : Label} {m : String} {e : List Ev} (hi : Inv s) (hm : InvM s) (he : Enabled s l)
+    (h : step s l = .panic m e) : False := by
+  obtain ⟨h1, h2, h3, h4, h5, h6, h7, h8, h9, h10, h11, h12, h13, h14, h15, h16, h17, h18⟩ := hi
+  obtain ⟨m1, m2⟩ := hm
+  cases l <;> step_split h
+  all_goals try (cases ‹Next›)
+  all_goals simp_all [Enabled, userPc, running, dropped, noReadPc, pendingReader, wroteOne]
+  all_goals try omega
 
 end Witverif.Async.Task
